@@ -512,7 +512,7 @@ theorem cancelJoin_post {s : St} (h : WInv s) (cfg : Cfg) (hs : s.stopping = tru
       exact ⟨w, by rw [c.stopping]; exact hs, nh hn, by rw [c.rejoinD], by rw [c.jpc], by rw [c.started],
         by rw [c.startResult], by rw [c.stops], n, mo⟩
     · rename_i n
-      have t := escapeCore_stopping (h0 (.loadParts n) s.prep) cfg .kafkaUnavailable hs hn
+      have t := escapeCore_stopping (h0 (.loadParts n) s.prep) cfg (if cfg.partsCancelSleeping then .cancelled else .kafkaUnavailable) hs hn
       exact ⟨t.winv, t.stopping, t.noheld, t.rd, t.jpc, t.started, t.startResult, t.stops, t.needed, t.mono⟩
     · obtain ⟨w, c, n, mo, nh⟩ := rejoinCore_stopping_winv (h0 .idle s.prep) cfg .cancelled hs
       exact ⟨w, by rw [c.stopping]; exact hs, nh hn, by rw [c.rejoinD], by rw [c.jpc], by rw [c.started],
@@ -536,7 +536,7 @@ structure FinPost (s s' : St) : Prop where
 theorem cancelJoin_hb (cfg : Cfg) (s : St) : (cancelJoin cfg s).1.hbRunning = s.hbRunning := by
   unfold cancelJoin escapeCore rejoinCore
   split
-  · split <;> simp only [andThen_fst] <;> (try split) <;> (try split) <;>
+  · split <;> simp only [andThen_fst] <;> (try split) <;> (try split) <;> (try split) <;>
       simp [(rejoinWith_ctl _ _ _).hbRunning]
   · rfl
 
